@@ -99,7 +99,7 @@ class Source(Entity):
         """
         # for now we need to do a search
         block = self.parent_block
-        if self in block.sources:
+        if self.id in block.sources:
             return None
         for s in block.sources:
             p = s._find_parent_recursive(self.id, False)
